@@ -1124,13 +1124,13 @@ def st_altloc(tier):
         # duplicate atoms inside residues: each atom gets 1..3 copies; copies carry letter ids
         residues = []
         alt = []
-        plain = draw(st.integers(0, 14)) == 0  # file without any alternate location
+        plain = draw(st.sampled_from([True] + [False] * 11))  # file without any alternate location
         for r in base["residues"]:
             atoms = []
             letters = draw(st.permutations(["A", "B", "C"]))
-            whole = not plain and draw(st.integers(0, 3)) == 0  # whole residue in two conformations
+            whole = not plain and draw(st.sampled_from([False, True, False]))  # whole residue in two conformations
             for an, el in r["atoms"]:
-                k = 2 if whole else (1 if plain else draw(st.sampled_from([1, 1, 1, 2, 2, 3])))
+                k = 2 if whole else (1 if plain else draw(st.sampled_from([2, 1, 3, 1, 2])))
                 if k == 1:
                     atoms.append([an, el])
                     alt.append(draw(st.sampled_from([".", ".", ".", "?"])) if not whole else letters[0])
